@@ -83,6 +83,26 @@ func c01Case(t *rapid.T, ev *evProp, gi *GroupInfo) {
 	if gi.MulNil {
 		l.eq("Mul(a,nil)=Mul(a,Base)", pt().Mul(a.S, nil), pt().Mul(a.S, B))
 	}
+	// the same laws with the receiver aliasing an operand (documented use: "P.Add(P, Q)")
+	al := func() kyber.Point { return markVT(gi, P.P.Clone()) }
+	var r1 kyber.Point
+	r1 = al()
+	l.eq("r=P; r.Add(r,Q)", r1.Add(r1, Q.P), pq)
+	r1 = al()
+	l.eq("r=P; r.Add(Q,r)", r1.Add(Q.P, r1), pq)
+	pmq, qmp := pt().Add(P.P, pt().Neg(Q.P)), pt().Add(Q.P, negP)
+	r1 = al()
+	l.eq("r=P; r.Sub(r,Q)", r1.Sub(r1, Q.P), pmq)
+	r1 = al()
+	l.eq("r=P; r.Sub(Q,r)", r1.Sub(Q.P, r1), qmp)
+	r1 = al()
+	l.eq("r=P; r.Add(r,r)", r1.Add(r1, r1), pp)
+	r1 = al()
+	l.eq("r=P; r.Sub(r,r)", r1.Sub(r1, r1), O)
+	r1 = al()
+	l.eq("r=P; r.Neg(r)", r1.Neg(r1), negP)
+	r1 = al()
+	l.eq("r=P; r.Mul(a,r)", r1.Mul(a.S, r1), aP)
 	// reference model
 	if r := refFor(gi); r != nil {
 		mp, err1 := r.Decode(mustMarshal(t, P.P))
@@ -108,7 +128,7 @@ func c01Case(t *rapid.T, ev *evProp, gi *GroupInfo) {
 
 const c01Rule = "case = (group, scalars a,b from edge-biased classes {0,1,2,q-1,q-2,(q±1)/2,2^k,2^k±1 on limb/window boundaries,leading-zero,short,window patterns,uniform}, " +
 	"points P,Q,R from {O,B,-B,k*B,a*B,Pick,Embed,Hash,decoded,sum/diff/double/multiple of earlier points, pairing outputs for GT}, Q=P forced in 1/6 of cases); " +
-	"24 identities are evaluated per case, each asserted by Equal in both directions and by identical encodings, plus 5 comparisons with the math/big reference model where one exists. " +
+	"24 identities (+8 with the receiver aliasing an operand) are evaluated per case, each asserted by Equal in both directions and by identical encodings, plus 5 comparisons with the math/big reference model where one exists. " +
 	"non-trivial = an operand is an edge value, P=Q, or an operand is the result of earlier arithmetic (non-normalised internals); distinct = distinct rendered case" +
 	" Added after the sensitivity rounds: registry includes a cofactor-R>2 residue group and 'short coordinate' multiples of B; after every case values obtained from Base()/Null() are overwritten in place and the constants are compared with encodings recorded at process start."
 
